@@ -153,6 +153,15 @@ class Scenario:
         self.max_t = profile.get('max_transports', 4)
         self.gone = []            # session ids that were connected once
         self.emit_pool = []       # values the application emits more than once (the same object each time)
+        # application code that holds on to a session id for too long, or forgets / mixes up the namespace argument:
+        # every session id the server announced, with the transport and namespace it was announced on (live AND ended
+        # ones); `stale_p` = how often a server API call is issued with a (sid, namespace) pair naming no live session
+        self.home = {}            # sid name -> (tid, ns)
+        self.stale_p = profile.get('stale_p', 0.12)
+        # enter_room() with such a pair is opt-in per profile: on the unchanged library a refused enter_room() on a
+        # namespace that has clients leaves an empty room behind (and with it the namespace's table for good), which
+        # C11's residue probe reports -- reported to the integrator, not yet a recorded finding
+        self.stale_enter_p = profile.get('stale_enter_p', 0.0)
 
     # ---- learn from what the server sent
     def learn(self, op, obs):
@@ -164,6 +173,8 @@ class Scenario:
             for p in pkts:
                 if p['type'] == 0 and isinstance(p['data'], dict) and 'sid' in p['data']:
                     self.conn[(tid, p['ns'])] = p['data']['sid']
+                    if isinstance(p['data']['sid'], str):
+                        self.home.setdefault(p['data']['sid'], (tid, p['ns']))
                 elif p['type'] == 1:
                     self.conn.pop((tid, p['ns']), None)
                 elif p['type'] in (2, 5) and p['id'] is not None:
@@ -189,14 +200,121 @@ class Scenario:
     # ---- next op
     def next(self):
         rng = self.rng
-        if self.pending_frames:
-            return self.pending_frames.pop(0)
+        for key, sid in self.conn.items():
+            if isinstance(sid, str):
+                self.home.setdefault(sid, key)
+        while self.pending_frames:
+            op = self.pending_frames.pop(0)
+            if callable(op):
+                op = op()         # a follow-up that depends on what the server did meanwhile (None = not applicable)
+            if op is not None:
+                return op
         for _ in range(50):
             k = weighted(rng, self.weights)
             op = getattr(self, 'g_' + k)()
             if op is not None:
                 return op
         return {'op': 'open', 't': self._new_t()}
+
+    # ---- (sid, namespace) pairs that name NO live session
+    def ended(self):
+        """[(sid, tid, ns)] of the session ids the server announced once and that are not connected any more"""
+        live = set(self.conn.values())
+        return [(sid, t, ns) for sid, (t, ns) in self.home.items() if sid not in live]
+
+    def _stale_pair(self):
+        """-> (kind, sid, ns) naming no live session, or None.  'ended': a session id whose connection has ended,
+        with its own namespace; 'ended_other_ns': the same with another namespace; 'wrong_ns': a LIVE session id
+        with a namespace it does not belong to (the namespace argument forgotten, i.e. '/', or mixed up).  Pairs
+        whose namespace has clients right now (the server's tables for it exist) are preferred."""
+        rng = self.rng
+        cands = []
+        for sid, t, ns in self.ended()[-8:]:
+            cands.append(('ended', sid, ns))
+            cands.append(('ended_other_ns', sid, rng.choice([n for n in NS_POOL[:3] if n != ns])))
+        for (t, ns), sid in self.conn.items():
+            if ns != '/' and rng.random() < 0.5:
+                ns2 = '/'
+            else:
+                ns2 = rng.choice([n for n in NS_POOL[:3] if n != ns])
+            cands.append(('wrong_ns', sid, ns2))
+        if not cands:
+            return None
+        populated = [c for c in cands if self.sids(c[2])]
+        if populated and rng.random() < 0.8:
+            cands = populated
+        kind = weighted(rng, {k: w for k, w in (('ended', 3), ('wrong_ns', 3), ('ended_other_ns', 1))
+                              if any(c[0] == k for c in cands)})
+        return rng.choice([c for c in cands if c[0] == kind])
+
+    def _stale_enter(self):
+        """enter_room() with a pair that names no live session, then what an application does with a room: asks for
+        the rooms of that session id and emits to the room"""
+        c = self._stale_pair()
+        if c is None:
+            return None
+        kind, sid, ns = c
+        rng = self.rng
+        room = rng.choice(ROOMS)
+        ops = self._populate(sid, ns) + [
+            {'op': 'enter', 'sid': sid, 'ns': ns, 'room': room, '_stale': kind},
+            {'op': 'rooms', 'sid': sid, 'ns': ns, '_stale': kind},
+            {'op': 'emit', 'ev': rng.choice(EVENTS), 'data': gen_ret(rng), 'ns': ns, 'to': {'one': room}, 'skip': [],
+             'cb': None, '_stale': kind}]
+        self.pending_frames = ops[1:] + self.pending_frames
+        return ops[0]
+
+    def _populate(self, sid, ns):
+        """[CONNECT of another client to `ns`] when nobody is connected there (mostly): a namespace that has clients is
+        where the server's own tables for it exist, so that a lookup of a foreign / ended id gets past the first test"""
+        rng = self.rng
+        if self.sids(ns) or rng.random() < 0.25:
+            return []
+        others = [t for t in self.open if t != self.home.get(sid, (None, None))[0] and (t, ns) not in self.conn]
+        pre = []
+        if not others:
+            if len(self.open) >= self.max_t:
+                return []
+            others = [self._new_t()]             # a new client
+            pre = [{'op': 'open', 't': others[0]}]
+
+        def connect(first=False):
+            if not first and self.sids(ns):
+                return None                      # somebody is connected there by now
+            ts = [t for t in others if t in self.open and (t, ns) not in self.conn]
+            return {'op': 'frame', 't': rng.choice(ts), 'text': pycodec.encode(0, ns, None, None)[0]} if ts else None
+        return pre + [connect(True), connect, connect]       # the connect handler may refuse: two more attempts
+
+    def _stale_session(self):
+        """a session call whose (sid, namespace) pair names no live session -- typically the namespace argument
+        forgotten ('/') or mixed up in code that serves another namespace of the same client, before or after that
+        client connects there -- followed by reads under the correct pairs (and, when the client is not connected to
+        that namespace, by its CONNECT there and a read of the new session)"""
+        c = self._stale_pair()
+        if c is None:
+            return None
+        kind, sid, ns = c
+        op = self._session_op(sid, ns)
+        op['_stale'] = kind
+        before = self._populate(sid, ns)
+        follow = []
+        if kind == 'wrong_ns':
+            t, ns_home = self.home[sid]
+            follow.append({'op': 'get_session', 'sid': sid, 'ns': ns_home})
+            if (t, ns) in self.conn:
+                op['_stale'] = 'wrong_ns.client_connected_there'
+                follow.append({'op': 'get_session', 'sid': self.conn[(t, ns)], 'ns': ns})
+            elif t in self.open:
+                op['_stale'] = 'wrong_ns.client_connects_there_later'
+                follow.append({'op': 'frame', 't': t, 'text': pycodec.encode(0, ns, None, None)[0]})
+
+                def later(t=t, ns=ns):
+                    s2 = self.conn.get((t, ns))
+                    return {'op': 'get_session', 'sid': s2, 'ns': ns, '_after_stale': True} if s2 else None
+                follow.append(later)
+        ops = before + [op] + follow
+        self.pending_frames = ops[1:] + self.pending_frames
+        return ops[0]
 
     def _new_t(self):
         self.ntrans += 1
@@ -302,7 +420,7 @@ class Scenario:
             return {'one': rng.choice(sids)}
         if r < 0.8:
             return {'one': rng.choice(ROOMS)}
-        pool = ROOMS + sids
+        pool = ROOMS + sids + [e[0] for e in self.ended()[-2:]]     # also the personal room of a session that ended
         return {'many': rng.sample(pool, rng.randint(1, min(3, len(pool))))}
 
     def g_emit(self, cb=False):
@@ -359,9 +477,14 @@ class Scenario:
         if self.conn and rng.random() < 0.85:
             (t, ns), sid = rng.choice(list(self.conn.items()))
             return {'op': 'disconnect', 'sid': sid, 'ns': ns}
-        return {'op': 'disconnect', 'sid': rng.choice(self.sids() + ['nobody']), 'ns': rng.choice(NS_POOL)}
+        return {'op': 'disconnect', 'sid': rng.choice(self.sids() + [e[0] for e in self.ended()[-3:]] + ['nobody']),
+                'ns': rng.choice(NS_POOL)}
 
     def g_enter(self):
+        if self.rng.random() < self.stale_enter_p:
+            op = self._stale_enter()
+            if op is not None:
+                return op
         if not self.conn:
             return None
         (t, ns), sid = self.rng.choice(list(self.conn.items()))
@@ -382,6 +505,10 @@ class Scenario:
         return {'op': 'close', 'ns': self.rng.choice(NS_POOL), 'room': self.rng.choice(ROOMS + ['nope'])}
 
     def g_rooms(self):
+        if self.rng.random() < self.stale_p:
+            c = self._stale_pair()
+            if c is not None:
+                return {'op': 'rooms', 'sid': c[1], 'ns': c[2], '_stale': c[0]}
         if not self.conn:
             return None
         (t, ns), sid = self.rng.choice(list(self.conn.items()))
@@ -389,9 +516,17 @@ class Scenario:
 
     def g_session(self):
         rng = self.rng
+        if rng.random() < self.stale_p:
+            op = self._stale_session()
+            if op is not None:
+                return op
         if not self.conn:
             return None
         (t, ns), sid = rng.choice(list(self.conn.items()))
+        return self._session_op(sid, ns)
+
+    def _session_op(self, sid, ns):
+        rng = self.rng
         r = rng.random()
         if r < 0.35:
             return {'op': 'save_session', 'sid': sid, 'ns': ns,
